@@ -6,6 +6,7 @@
 -/
 import BespokeVerif.Model.Scan
 import BespokeVerif.Lemmas.Scan
+import BespokeVerif.Lemmas.Parse
 namespace BV.C18
 open BV
 
@@ -179,5 +180,48 @@ example : tokenize "  LDI\tA ,5 ; x".toList = ["LDI", "A", ",", "5"] := by decid
 example : tokenize "x: .byte ';', 1 ; c".toList = ["x", ":", ".byte", "';'", ",", "1"] := by decide +kernel
 example : tokenize ".cstr \"a;b, c: nop\" nop".toList = [".cstr", "\"a;b, c: nop\"", "nop"] := by decide +kernel
 example : tokenize "st[kone+1]".toList = ["st", "[", "kone", "+", "1", "]"] := by decide +kernel
+
+/-! ### the same facts for the parser that feeds the layout model (`Model/Parse.lean`) -/
+
+/-- comments carry no meaning (parser): the text handed to the statement parser is what stands in
+    front of the first `;` outside a literal -/
+theorem text_comment_ignored (s c : List Char) (h : ∀ x ∈ s, x ≠ ';' ∧ isQuote x = false) :
+    stripComment none (s ++ ';' :: c) = s := by
+  rw [stripComment_plain_append s _ h]; simp [stripComment]
+
+/-- … and a `;` inside a quoted literal does not start one -/
+theorem text_semicolon_in_literal (s body rest : List Char) (q : Char) (hs : ∀ x ∈ s, x ≠ ';' ∧ isQuote x = false)
+    (hq : isQuote q = true) (hb : ∀ c ∈ body, c ≠ q ∧ c ≠ '\\') :
+    stripComment none (s ++ q :: body ++ q :: rest) = s ++ q :: body ++ q :: stripComment none rest := by
+  have hq' : q ≠ '\\' := by intro h; subst h; simp [isQuote] at hq
+  rw [List.append_assoc, stripComment_plain_append s _ hs]
+  simp only [List.cons_append, stripComment, hq, if_true]
+  have h1 : (q == ';') = false := by
+    cases h : (q == ';') with
+    | false => rfl
+    | true => simp at h; subst h; simp [isQuote] at hq
+  simp only [h1, Bool.false_eq_true, if_false, stripComment_inside q body rest hq' hb, List.append_assoc, List.cons_append]
+
+/-- removing the comment twice changes nothing more -/
+theorem text_comment_idempotent (l : List Char) : stripComment none (stripComment none l) = stripComment none l :=
+  stripComment_idem none l
+
+/-- white space around the statements of a line carries no meaning (parser) -/
+theorem text_surrounding_blanks (cfg : PCfg) (f : Nat) (t : List Char) :
+    parseStmts cfg f (ptrim t) = parseStmts cfg f t := parseStmts_trim cfg f t
+
+/-- a label in front of a statement (parser): the line `name: rest` is the label followed by the
+    statements of `rest` - what the two lines `name:` and `rest` give -/
+theorem text_label_in_front (cfg : PCfg) (f : Nat) (w rest : List Char) (hw : NameText w) :
+    parseStmts cfg (f + 1) (w ++ ':' :: rest) =
+      (do let more ← parseStmts cfg f rest; .ok (.label (String.ofList w) :: more)) :=
+  parseStmts_label_front cfg f w rest hw
+
+/-- … and the label alone on its line is that label -/
+theorem text_label_own_line (cfg : PCfg) (f : Nat) (w : List Char) (hw : NameText w) :
+    parseStmts cfg (f + 2) (w ++ [':']) = .ok [.label (String.ofList w)] := by
+  rw [parseStmts_label_front cfg (f + 1) w [] hw]
+  simp [parseStmts, ptrim, ptrimR, ptrimL]
+  rfl
 
 end BV.C18
